@@ -30,7 +30,7 @@ def gen_program(rng):
         k = rng.choice(kinds)
         r = nreg
         if k == "new":
-            route = rng.choice(["seq", "seq", "atom", "string", "ctor"])
+            route = rng.choice(["seq", "seq", "atom", "string", "ctor", "iter"])
             if route == "atom":
                 s = [(1, gens.gen_atom(rng))]
             elif route == "string":
@@ -102,6 +102,16 @@ def driver_lines(prog):
     return lines
 
 
+def _one_shot(struct, depth=0):
+    """the same nested sequence as one-shot iterables: a zip at the top, generators / iterators below"""
+    items = [(c, _one_shot(f, depth + 1) if isinstance(f, tuple) else f) for c, f in struct]
+    if depth == 0:
+        return zip([c for c, _ in items], [f for _, f in items])
+    if depth % 2:
+        return ((c, f) for c, f in items)
+    return iter(items)
+
+
 def partition(ids):
     seen = {}
     return [seen.setdefault(i, len(seen)) for i in ids]
@@ -128,6 +138,9 @@ def run_python(prog, tbl, formula, me):
                 elif route == "ctor":
                     from periodictable.formulas import Formula
                     f = Formula(structure=pyside.struct_objs(s, tbl))
+                elif route == "iter":
+                    # one-shot iterables (zip, generators, iterators), also for nested fragments
+                    f = formula(_one_shot(pyside.struct_objs(s, tbl)))
                 else:
                     f = formula(pyside.struct_objs(s, tbl))
                 regs[r] = f
